@@ -236,6 +236,57 @@ void t_cfg_bigcap(Src &s, Case &c)
     run_cfg(s, c, a, payload, second);
 }
 
+// A frame that is cut off (anywhere; half of the time right after an escape byte) and then the complete frame of
+// another payload, into the same receiver. Alphabet v1 only: with distinct markers a start marker opens a fresh frame
+// whatever came before, so the complete frame must be delivered exactly as if it were alone.
+void t_cfg_resume(Src &s, Case &c)
+{
+    const Alphabet &a = kV1;
+    Case dummy;
+    dummy.want_desc = false;
+    Bytes first = gen_payload(s, dummy, a, 40);
+    Bytes payload = gen_payload(s, c, a, 120);
+    Bytes f1 = ref_frame(a, first), f2 = ref_frame(a, payload);
+    size_t cut = (size_t)s.below(f1.size()); // 0 .. size-1: never the whole frame
+    if (s.coin())
+    {
+        // move the cut to just behind an escape byte, if the frame has one
+        for (size_t i = 0; i < f1.size(); i++)
+        {
+            size_t j = (cut + i) % f1.size();
+            if (j > 0 && f1[j - 1] == a.stub)
+            {
+                cut = j;
+                c.label("cut_after_escape_byte");
+                break;
+            }
+        }
+    }
+    c.log("v1 aborted frame %s (first %zu of %zu bytes) then payload[%zu]=%s", hexdump(f1.data(), cut, 48).c_str(), cut, f1.size(), payload.size(),
+          hexdump(payload.data(), payload.size(), 48).c_str());
+    c.nontrivial = cut >= 2;
+    size_t cap = std::max(first.size(), payload.size()) + 2 + (size_t)s.below(8);
+    auto rx = make_cfg_receiver(a, cap);
+    for (size_t i = 0; i < cut; i++)
+    {
+        Status st = rx->feed(f1[i]);
+        VP_CHECK(st != S_NEWPACKAGE, "resume_early_packet", "a packet was reported inside a cut-off frame (byte %zu)", i);
+    }
+    // the complete frame: its first byte (START) may be answered with a restart notice, everything after it is judged
+    for (size_t i = 0; i < f2.size(); i++)
+    {
+        Status st = rx->feed(f2[i]);
+        if (i + 1 == f2.size())
+            VP_CHECK(st == S_NEWPACKAGE, "resume_no_packet", "complete frame after a cut-off one: status %s on its last byte (%s then %s)", status_name(st),
+                     hexdump(f1.data(), cut, 48).c_str(), hexdump(f2.data(), f2.size(), 60).c_str());
+        else
+            VP_CHECK(st != S_NEWPACKAGE, "resume_early_packet", "packet reported at byte %zu of %zu of the complete frame", i, f2.size());
+    }
+    Bytes got = rx->packet();
+    VP_CHECK(got == payload, "resume_content", "after a cut-off frame the receiver delivered %s, the frame carries %s", hexdump(got.data(), got.size(), 60).c_str(),
+             hexdump(payload.data(), payload.size(), 60).c_str());
+}
+
 void run_legacy(Src &s, Case &c, const Bytes &payload, const Bytes &second)
 {
     size_t n = payload.size();
@@ -331,6 +382,9 @@ void t_enum(Src &s, Case &c)
 
 } // namespace
 
+VP_TARGET("gstuff_cfg_resume", t_cfg_resume,
+          "configurable codec, alphabet v1: an encoded frame cut off at any byte (half of the time right behind an escape byte) followed, in the same receiver, "
+          "by the complete frame of another payload — which must be delivered on its last byte with exactly its payload; non-trivial = at least two bytes of the first frame were fed");
 VP_TARGET("gstuff_cfg_bigcap", t_cfg_bigcap,
           "configurable codec with receiver capacities 65535, 65536, 65537, 65538, 70000, 131072, 131073, 196608 (larger than 16 bits hold): "
           "payloads 0..300 as in gstuff_cfg, one in six stretched to 65500..66100 bytes; same oracle");
